@@ -117,3 +117,7 @@ Check (C16_encoder_frames_scanned : forall o L rate bps number chans bytes rest 
   syncless g = true -> (length (g ++ bytes ++ rest) < fuel)%nat ->
   exists h, scan fuel (g ++ bytes ++ rest) = Ok (h, chans, rest) /\
             h_rate h = rate /\ h_bps h = bps /\ h_number h = number /\ h_bs h = block_len chans).
+Check (C16_encoder_stream_read_back : forall o L items trailer bytes fuel,
+  subset_stream o L items trailer = Some bytes -> Forall item_ok items -> syncless trailer = true ->
+  (length items < fuel)%nat ->
+  exists out, stream_read_all fuel bytes [] = (out, EndErr EEof) /\ Forall2 item_hdr_ok items out).
